@@ -1,8 +1,11 @@
 ----------------------------- MODULE SelectionMC -----------------------------
 (***************************************************************************)
 (* Design-level state machine for C10: one decision point under every      *)
-(* interleaving of option updates, mode switches, forward passes,          *)
-(* coefficient updates, summary() and export() calls, explored to closure. *)
+(* interleaving of option updates, mode switches, forward passes (with     *)
+(* grad enabled and under torch.no_grad()), writes to the coefficients     *)
+(* (in-place copy_, assignment to .data, optimizer step, load_state_dict   *)
+(* of a checkpoint taken in another state), summary() and export() calls,  *)
+(* explored to closure.                                                    *)
 (*                                                                         *)
 (* Init = the object right after construction, for every combination of    *)
 (* constructor options (Selection!InitState).  With InitAlpha = "any" the  *)
@@ -16,48 +19,66 @@
 EXTENDS Selection, TLC
 
 CONSTANTS Kind,      \* "mps" | "sn"
-          Impl,      \* "asis" | "ref"      sampler semantics (differs for "sn" only)
+          Smp,       \* "asis" | "ref" | "skipflag" | "skipver"   sampler semantics (Selection!Impl)
+          SumSamples, ExpSamples,   \* BOOLEAN: pinned summary() / export() side effects (Selection!Impl)
           OptImpl,   \* "pinned" | "fixed"  update_softmax_options semantics (MPS only)
           Ctor,      \* "bare" | "model"
           N,         \* number of candidates
           Chans,     \* channels (1 = per-layer quantiser / combiner)
           Temps,     \* temperature classes, e.g. {"lo","hi"}
           Acts,      \* enabled actions, subset of
-                     \* {"temp","hard","gumbel","disable","mode","fwd","alpha","summary","export"}
+                     \* {"temp","hard","gumbel","disable","mode","fwd","alpha","load","summary","export"}
+          Writes,    \* enabled ways of writing alpha, subset of Selection!WriteKinds
+          Ckpts,     \* kinds of checkpoints that are loaded, subset of Selection!CkptKinds
+          Moves,     \* "all": a write may install any ranking matrix; "gen": only the neighbours of the current
+                     \*        one under a generating set of moves (same reachable states, fewer edges)
           InitAlpha, \* "ctor": coefficients as left by the constructor; "any": every ranking matrix
           AllowKF    \* TRUE: the named deviations KF_* are admitted by the invariants
 
 VARIABLE st
 
+IM           == Impl(Smp, SumSamples, ExpSamples)
 RankMatrices == [1..Chans -> Rankings(N)]
 Identity     == [i \in 1..N |-> i]
+
+\* generating moves on one ranking: rotate the candidates, exchange the first two
+Rot(r)  == [i \in 1..N |-> r[(i % N) + 1]]
+Swap(r) == IF N < 2 THEN r ELSE [i \in 1..N |-> IF i = 1 THEN r[2] ELSE IF i = 2 THEN r[1] ELSE r[i]]
+Neighbours(rk) == {[rk EXCEPT ![c] = Rot(rk[c])] : c \in 1..Chans} \cup {[rk EXCEPT ![c] = Swap(rk[c])] : c \in 1..Chans}
+Targets(rk)    == IF Moves = "all" THEN RankMatrices ELSE Neighbours(rk)
 
 Init ==
     \E r0 \in Rankings(N), rk \in RankMatrices, hard \in BOOLEAN, gum \in BOOLEAN, dis \in BOOLEAN, t \in Temps :
         /\ (Kind = "sn" => ~dis)
         /\ IF Kind = "sn" \/ InitAlpha = "ctor"
            THEN /\ rk = [c \in 1..Chans |-> r0]
-                /\ st = InitState(Kind, Impl, OptImpl, Ctor, rk, hard, gum, dis, t)
+                /\ st = InitState(Kind, IM, OptImpl, Ctor, rk, hard, gum, dis, t)
            ELSE /\ r0 = Identity      \* quantiser built with ascending precisions, then alpha := rk
-                /\ LET s == InitState(Kind, Impl, OptImpl, Ctor, [c \in 1..Chans |-> r0], hard, gum, dis, t)
-                   IN  st = IF rk = s.rank THEN s ELSE DoSetAlpha(s, rk)
+                /\ LET s == InitState(Kind, IM, OptImpl, Ctor, [c \in 1..Chans |-> r0], hard, gum, dis, t)
+                   IN  st = IF rk = s.rank THEN s ELSE DoSetAlpha(IM, s, rk, "copy")
 
-UpdTemp(t)    == "temp" \in Acts /\ st' = DoOption(Kind, OptImpl, st, "temp", t)
-UpdHard(b)    == "hard" \in Acts /\ st' = DoOption(Kind, OptImpl, st, "hard", b)
-UpdGumbel(b)  == "gumbel" \in Acts /\ Kind = "mps" /\ st' = DoOption(Kind, OptImpl, st, "gumbel", b)
-UpdDisable(b) == "disable" \in Acts /\ Kind = "mps" /\ st' = DoOption(Kind, OptImpl, st, "disable", b)
+UpdTemp(t)    == "temp" \in Acts /\ st' = DoOption(Kind, IM, OptImpl, st, "temp", t)
+UpdHard(b)    == "hard" \in Acts /\ st' = DoOption(Kind, IM, OptImpl, st, "hard", b)
+UpdGumbel(b)  == "gumbel" \in Acts /\ Kind = "mps" /\ st' = DoOption(Kind, IM, OptImpl, st, "gumbel", b)
+UpdDisable(b) == "disable" \in Acts /\ Kind = "mps" /\ st' = DoOption(Kind, IM, OptImpl, st, "disable", b)
 ModeTrain     == "mode" \in Acts /\ st' = DoMode(st, TRUE)
 ModeEval      == "mode" \in Acts /\ st' = DoMode(st, FALSE)
-Forward       == "fwd" \in Acts /\ st' = DoForward(Kind, Impl, st)
-SetAlpha(rk)  == "alpha" \in Acts /\ st.rank # rk /\ st' = DoSetAlpha(st, rk)
-Summarize     == "summary" \in Acts /\ st' = DoSummary(Kind, Impl, st)
-Export        == "export" \in Acts /\ st' = DoExport(Kind, Impl, Ctor, st)
+Forward(g)    == "fwd" \in Acts /\ st' = DoForward(Kind, IM, st, g)
+SetAlpha(rk, wk) == "alpha" \in Acts /\ wk \in Writes /\ rk # st.rank /\ rk \in Targets(st.rank)
+                    /\ st' = DoSetAlpha(IM, st, rk, wk)
+\* the checkpoint holds coefficients rk (possibly the current ones), a theta_alpha sampled for them, temperature t
+Load(rk, ck, t)  == "load" \in Acts /\ ck \in Ckpts /\ rk \in Targets(st.rank) \cup {st.rank}
+                    /\ st' = DoLoad(Kind, IM, st, rk, [c \in 1..Chans |-> CkptClass(ck, rk[c])], t)
+Summarize     == "summary" \in Acts /\ st' = DoSummary(Kind, IM, st)
+Export        == "export" \in Acts /\ st' = DoExport(Kind, IM, Ctor, st)
 
 Next ==
     \/ \E t \in Temps : UpdTemp(t)
-    \/ \E b \in BOOLEAN : UpdHard(b) \/ UpdGumbel(b) \/ UpdDisable(b)
-    \/ ModeTrain \/ ModeEval \/ Forward \/ Summarize \/ Export
-    \/ \E rk \in RankMatrices : SetAlpha(rk)
+    \/ \E b \in BOOLEAN : UpdHard(b) \/ UpdGumbel(b) \/ UpdDisable(b) \/ Forward(b)
+    \/ ModeTrain \/ ModeEval \/ Summarize \/ Export
+    \* (constant bounds, so that TLC labels every edge with the action and its arguments)
+    \/ \E rk \in RankMatrices, wk \in WriteKinds : SetAlpha(rk, wk)
+    \/ \E rk \in RankMatrices, ck \in CkptKinds, t \in Temps : Load(rk, ck, t)
 
 Spec == Init /\ [][Next]_st
 
@@ -68,8 +89,9 @@ TypeOK ==
     /\ st.sampler \in {"sm", "gs", "none"}
     /\ st.training \in BOOLEAN /\ st.temp \in Temps
     /\ \A c \in 1..Chans : st.theta[c] \in Classes(N)
-    /\ st.fresh \in BOOLEAN /\ st.sampled \in BOOLEAN
+    /\ st.fresh \in BOOLEAN /\ st.sampled \in BOOLEAN /\ st.lastinf \in BOOLEAN /\ st.skip \in BOOLEAN
     /\ (Kind = "sn" => st.sampler # "none")
+    /\ (Smp \notin Skips => ~st.skip)
 
 \* C10, first sentence: what a sampling step produced is a probability vector (per channel)
 SampledIsProb == \A c \in 1..Chans : ProbOK(st, c)
@@ -80,19 +102,22 @@ GumbelTraining == \A c \in 1..Chans : GumbelOK(st, c)
 \* plain soft-max keeps the winner (monotonicity of the soft-max)
 SoftKeepsWinner == \A c \in 1..Chans : SoftOK(st, c)
 \* C10, second sentence: summary() designates, and export() keeps, argmax(alpha)
-ReportIsArgmax == \A c \in 1..Chans : ReportOK(Kind, Impl, st, c, AllowKF)
+ReportIsArgmax == \A c \in 1..Chans : ReportOK(Kind, IM, st, c, AllowKF)
 ExportIsArgmax == \A c \in 1..Chans : ExportOK(st, c)
 ReportIsExport == \A c \in 1..Chans :
-    \/ ReportSet(Kind, Impl, st, c) = {ExportChoice(st, c)}
+    \/ ReportSet(Kind, IM, st, c) = {ExportChoice(st, c)}
     \/ AllowKF /\ KF_SNSummaryResamples(Kind, st.training, st.sampler)
 
-\* disable_sampling: "keep the saved coefficients" - no step changes theta while sampling stays disabled
-DisabledKeeps == [][st.sampler = "none" /\ st'.sampler = "none" => st'.theta = st.theta]_st
-\* theta is only changed by a sampling step
-ThetaOnlyBySampling ==
-    [][st'.theta # st.theta => \/ st' = DoForward(Kind, Impl, st)
-                               \/ st' = DoSummary(Kind, Impl, st)
-                               \/ st' = DoExport(Kind, Impl, Ctor, st)]_st
-\* the coefficients are only changed by SetAlpha (summary/export/forward are observers of alpha)
-AlphaOnlyBySetAlpha == [][st'.rank # st.rank => st' = DoSetAlpha(st, st'.rank)]_st
+IsLoad == \E rk \in RankMatrices, ck \in CkptKinds, t \in Temps :
+              st' = DoLoad(Kind, IM, st, rk, [c \in 1..Chans |-> CkptClass(ck, rk[c])], t)
+IsSampling == \/ \E g \in BOOLEAN : st' = DoForward(Kind, IM, st, g)
+              \/ st' = DoSummary(Kind, IM, st)
+              \/ st' = DoExport(Kind, IM, Ctor, st)
+\* disable_sampling: "keep the saved coefficients" - only loading a checkpoint changes theta while sampling is disabled
+DisabledKeeps == [][st.sampler = "none" /\ st'.sampler = "none" /\ st'.theta # st.theta => IsLoad]_st
+\* theta is only changed by a sampling step or by loading a checkpoint
+ThetaOnlyBySampling == [][st'.theta # st.theta => IsSampling \/ IsLoad]_st
+\* the coefficients are only changed by the writes (summary / export / forward are observers of alpha)
+AlphaOnlyByWrites ==
+    [][st'.rank # st.rank => (\E wk \in WriteKinds : st' = DoSetAlpha(IM, st, st'.rank, wk)) \/ IsLoad]_st
 =============================================================================
